@@ -243,8 +243,8 @@ enum KeyFingerprint {
         tag: SfTag,
         custom_tag: Option<String>,
     },
-    /// Sequence fingerprint (ordered fingerprints of children).
-    Sequence(Vec<KeyFingerprint>),
+    /// Sequence fingerprint (its tag, if any, and the ordered fingerprints of children).
+    Sequence(Option<String>, Vec<KeyFingerprint>),
     /// Mapping fingerprint (ordered list of `(key, value)` fingerprints).
     Mapping(Vec<(KeyFingerprint, KeyFingerprint)>),
     /// Should not be used, arises after taking the value away
@@ -507,6 +507,8 @@ fn capture_node<'a>(ev: &mut dyn Events<'a>) -> Result<KeyNode<'a>, Error> {
             raw_tag,
             location,
         } => {
+            // `!a [x]` and `!b [x]` are different keys, as `!a x` and `!b x` are.
+            let key_tag = raw_tag.as_ref().map(|t| t.to_string());
             let mut events = vec![Ev::SeqStart {
                 anchor,
                 tag,
@@ -536,7 +538,7 @@ fn capture_node<'a>(ev: &mut dyn Events<'a>) -> Result<KeyNode<'a>, Error> {
                 }
             }
             Ok(KeyNode::Fingerprinted {
-                fingerprint: KeyFingerprint::Sequence(elements),
+                fingerprint: KeyFingerprint::Sequence(key_tag, elements),
                 events,
                 location,
             })
